@@ -68,6 +68,18 @@ func c19Patterns(thorough bool) []c19Pat {
 	return base
 }
 
+// c19BadPatterns: literals that cannot be evaluated (a bad escape, a numeral with two points). A case that is never reached
+// never evaluates its patterns, so they are harmless behind a case that matches.
+var c19BadPatterns = []c19Pat{
+	{`'\q'`, func() Expr { return &RawStrLit{Raw: `\q`, Quote: '\''} }},
+	{"1.2.3", func() Expr { return N("1.2.3") }},
+	{`[1,'\q']`, func() Expr { return Arr_(N("1"), &RawStrLit{Raw: `\q`, Quote: '\''}) }},
+}
+
+func c19AllPatterns(thorough bool) []c19Pat {
+	return append(c19Patterns(thorough), c19BadPatterns...)
+}
+
 type c19Subj struct {
 	name string
 	mk   func() Expr
@@ -113,7 +125,7 @@ const c19StreamDocRev = `[0,false,"2",[[1],7],{"a":1},[1,[2,3]],[2,5],[1],[],tru
 var c19Sum = &Func{Name: "sum", Params: []string{"n"}, Body: Blk(&Return{X: &MatchExpr{Subj: V("n"), Cases: []MatchCase{{Pats: []Expr{N("0")}, Body: N("0")}, {Pats: []Expr{V("m")}, Body: Bin("+", CallE(V("sum"), Bin("-", V("m"), N("1"))), V("m"))}}}})}
 var c19T2 = &Func{Name: "t2", Params: []string{"i"}, Body: Blk(&Return{X: &MatchExpr{Subj: Arr_(V("i"), S("in t2")), Cases: []MatchCase{{Pats: []Expr{Arr_(V("x"), V("y"))}, Body: Arr_(V("y"), V("x"))}}}})}
 
-const c19Bodies = 8
+const c19Bodies = 9
 
 func c19Build(s c19Spec, pats []c19Pat) *progCase {
 	var subj Expr
@@ -153,6 +165,9 @@ func c19Build(s c19Spec, pats []c19Pat) *progCase {
 				leave = &Next{}
 			}
 			mc.Block = Blk(Pr(S("block"), id, V("x"), V("y")), leave, Pr(S("never")))
+		case 8:
+			// the name _ is bound like any other name
+			mc.Body = Arr_(id, &IsExpr{V("_"), "unknown"}, Bin("+", Bin("+", S("<"), V("_")), S(">")))
 		case 7:
 			// a block holding one expression statement is still a block: the match yields null
 			mc.Block = Blk(Ex(Arr_(id, V("x"), V("y"))))
@@ -205,8 +220,8 @@ func c19Check(c *fw.Ctx, s c19Spec, pats []c19Pat) *fw.Violation {
 func init() {
 	fw.Register(addTok(tokFramesC19, &fw.Prop{
 		ID: "C19",
-		Rule: "19 subjects (scalars of every kind, unset, arrays of several lengths and nestings, an object) x all case lists of <= 2 cases with <= 2 alternatives each and all lists of 3 single-alternative cases over the pattern alphabet x 8 body kinds (a block of one expression statement (null), a block left by continue / next, a block that creates new names -- gone afterwards, expression using the bound names, block with a trace, tracing call, a body that runs three further matches -- new name, array pattern, shadowing -- before using the names again, a body that calls matching / recursing functions); " +
-			"every case list of <= 3 single-alternative cases is also run as ONE match site over the sequence of all subjects (forward and reversed); outer variables named like the pattern names exist, so leaking or clobbering a binding is visible; oracle: DESIGN.md 3.17 through the reference interpreter (selected case, bindings, value, and the trace shows that no later pattern or body ran); " +
+		Rule: "19 subjects (scalars of every kind, unset, arrays of several lengths and nestings, an object) x all case lists of <= 2 cases with <= 2 alternatives each and all lists of 3 single-alternative cases over the pattern alphabet x 9 body kinds (a body that reads the name _, a block of one expression statement (null), a block left by continue / next, a block that creates new names -- gone afterwards, expression using the bound names, block with a trace, tracing call, a body that runs three further matches -- new name, array pattern, shadowing -- before using the names again, a body that calls matching / recursing functions); " +
+			"3 literals that cannot be evaluated (bad escape, 1.2.3) as a later case / alternative behind every pattern; every case list of <= 3 single-alternative cases is also run as ONE match site over the sequence of all subjects (forward and reversed); outer variables named like the pattern names exist, so leaking or clobbering a binding is visible; oracle: DESIGN.md 3.17 through the reference interpreter (selected case, bindings, value, and the trace shows that no later pattern or body ran); " +
 			"a state is (subject, first-case pattern, selected?); non-trivial = (subject, pattern) pairs that match",
 		Plan: func(t fw.Tier) int { return len(c19Patterns(t == fw.Thorough)) * len(c19Subjects) },
 		Bound: func(t fw.Tier) string {
@@ -214,8 +229,8 @@ func init() {
 		},
 		Assumptions: []string{"reference interpreter mc/refsem; patterns with duplicate names, regex patterns and assignments to bound names are not generated (DESIGN.md 7.1); names first created in a case body are local to the case (C08: a finished match leaves nothing behind)"},
 		Run: func(c *fw.Ctx, u int) {
-			pats := c19Patterns(c.Thorough())
-			np := len(pats)
+			np := len(c19Patterns(c.Thorough()))
+			pats := c19AllPatterns(c.Thorough()) // the last ones are the unevaluable literals: not part of the general product
 			first, subj := u/len(c19Subjects), u%len(c19Subjects)
 			// does the first pattern alone match this subject in the model?
 			alone := c19Build(c19Spec{Subj: subj, Cases: [][]int{{first}}, Body: 0}, pats).model()
@@ -253,6 +268,12 @@ func init() {
 						}
 					}
 				}
+			}
+			for bi := np; bi < len(pats); bi++ {
+				do([][]int{{first}, {bi}})
+				do([][]int{{first, bi}})
+				do([][]int{{first}, {1, bi}})
+				do([][]int{{bi}, {first}})
 			}
 			if c.Thorough() {
 				// every pattern of the large alphabet as second alternative and as second case
@@ -295,7 +316,7 @@ func init() {
 			if !unmarshal(raw, &s) {
 				return nil
 			}
-			return c19Check(c, s, c19Patterns(c.Thorough()))
+			return c19Check(c, s, c19AllPatterns(c.Thorough()))
 		},
 	}))
 }
